@@ -48,6 +48,28 @@ def reset_defaults():
     hl7apy._DEFAULT_VALIDATION_LEVEL = _PRISTINE[3]
 
 
+class _NoCtx(object):
+    def __enter__(self):
+        return self
+
+    def __exit__(self, *a):
+        return False
+
+
+def concrete():
+    """Context manager: run the enclosed code WITHOUT CrossHair's opcode tracing (plain CPython speed).
+    Only legal once every value the enclosed code touches has been concretised (fork-per-value); outside CrossHair
+    it is a no-op."""
+    if 'crosshair' in sys.modules:
+        try:
+            from crosshair.tracers import NoTracing, is_tracing
+            if is_tracing():
+                return NoTracing()
+        except Exception:
+            pass
+    return _NoCtx()
+
+
 def _install_crosshair_patches():
     if 'crosshair' not in sys.modules:
         return
